@@ -178,6 +178,29 @@ pub fn serve() {
                 }
                 json!({"ok": true, "state": out})
             }
+            "fence_probe" => {
+                // quiescent-point probe of the lease fencing (C23): what a forwarded PUT carrying a stale segment key does, aimed at
+                // segments that the node's own applied metadata has sealed at least `min_age` rollovers ago. Run after the event log
+                // and the client history of the execution have been collected (an accepted probe write pollutes the segment).
+                let mut out = vec![];
+                if let Some(w) = &world {
+                    let t = req["topic"].as_str().unwrap_or("");
+                    let min_age = req["min_age"].as_u64().unwrap_or(1);
+                    for n in w.nodes.iter() {
+                        let Some(st) = n.md.get_topic_state(t) else { continue };
+                        let mut segs: Vec<u64> = st.sealed_segments.keys().copied().filter(|s| s + min_age <= st.current_segment).collect();
+                        segs.sort();
+                        for s in segs.into_iter().rev().take(4) {
+                            let key = crate::controller::wal_key(t, s);
+                            let resp = tokio::block_on(n.ctl.handle_rpc(InternalOp::ForwardAppend { wal_key: key.clone(), data: b"fence-probe".to_vec() }));
+                            let accepted = matches!(resp, InternalResp::Ok);
+                            out.push(json!({"node": n.id, "segment": s, "key": key, "current_segment": st.current_segment,
+                                            "assigned_to": st.segment_leaders.get(&s), "accepted": accepted, "resp": format!("{:?}", resp)}));
+                        }
+                    }
+                }
+                json!({"ok": true, "probes": out})
+            }
             "exit" => {
                 let mut o = stdout.lock();
                 let _ = writeln!(o, "@{}", json!({"ok": true}));
